@@ -6,6 +6,7 @@ import Driver.Proto
 import Shp.Spec.Gen
 import Shp.Spec.Expected
 import Shp.Model.Pairs
+import Shp.Model.PairsRead
 import Shp.Model.Geo
 open Shp Shp.Proto
 
@@ -135,6 +136,16 @@ def runCase (verb : String) : P String := do
     if shapes.any Option.isNone then pure "panic" else
     let (shp, shx) := writeFiles (withShx = 1) (shapes.filterMap id)
     pure (hexBytes shp ++ " " ++ hexBytes shx)
+  | "writeh" => do
+    -- the same shapes written through a history with finalize calls and rejected writes interleaved
+    -- (route number ignored): by C09 and C10 the files are those of the plain history
+    let _route ← tok
+    let withShx ← nat
+    let n ← nat
+    let shapes ← many n (ctor o)
+    if shapes.any Option.isNone then pure "panic" else
+    let (shp, shx) := writeFiles (withShx = 1) (shapes.filterMap id)
+    pure (hexBytes shp ++ " " ++ hexBytes shx)
   | "whist" => do
     let withShx ← nat
     let ending ← tok
@@ -230,6 +241,31 @@ def runCase (verb : String) : P String := do
         match toOp op with
         | some f => let (st', r) := st.step o tg (f st); (st', showRes r :: outs)
         | none => (st, "bad-op" :: outs)) (st, [])
+      pure ("open ok ; " ++ String.intercalate " ; " outs.reverse)
+  | "prhist" => do
+    let shp ← bytes
+    let shx ← bytes
+    let rows ← nat
+    let n ← nat
+    let ops ← many n (do
+      let t ← tok
+      let k ← nat
+      pure (t, k))
+    match RState.open shp (some shx) with
+    | .error e => pure ("open " ++ showROut e)
+    | .ok st =>
+      let showP : POut → String
+        | .pair s r => "ok " ++ showShape s ++ " row " ++ toString r
+        | .err e => "err " ++ showErr e
+        | .panic m => "panic " ++ m
+      let (_, outs) := ops.foldl (fun (acc : PReader × List String) (op : String × Nat) =>
+        let (pr, outs) := acc
+        match op.1 with
+        | "it" =>
+          let r := pr.iterPairs o .generic (if op.2 = 99 then pr.rs.fuel else op.2) 0
+          (r.1, ("it[" ++ String.intercalate " ; " (r.2.map showP) ++ "]") :: outs)
+        | "seek" => let r := pr.seek op.2; (r.1, showROut r.2 :: outs)
+        | _ => (pr, "bad-op" :: outs)) ((⟨st, 0, rows⟩ : PReader), [])
       pure ("open ok ; " ++ String.intercalate " ; " outs.reverse)
   | "geo" => do
     match (← tok) with
